@@ -214,6 +214,19 @@ def _api_job(args):
             ids = list({(rng.choice([1, 2, 7, 33, 1000]), rng.choice([1, 2, 9, 10, 11, 127, 128, 65535, 2000000000]))
                         for _ in range(rng.randrange(1, 9))})
             record({"api": "get_characteristics", "ids": [list(x) for x in ids]}, False, True, p.get_characteristics(ids))
+        # long reads (polling a bridge): 50..300 ids over 1..3 accessory ids, iids up to 5 digits; the library may
+        # use one GET or several - every target must be a well-formed id list and the union must be the set asked
+        for size in [50, 100, 150, 300] + ([120, 200, 500] if nrand > 20 else []):
+            naid = rng.randrange(1, 4)
+            aids = rng.sample([1, 2, 3, 10, 17, 100], naid)
+            ids = set()
+            while len(ids) < size:
+                ids.add((rng.choice(aids), rng.choice([rng.randrange(1, 100), rng.randrange(100, 10000),
+                                                       rng.randrange(10000, 100000)])))
+            ids = list(ids)
+            rng.shuffle(ids)
+            record({"api": "get_characteristics", "ids": [list(x) for x in ids]}, False, True,
+                   p.get_characteristics(rng.choice([ids, set(ids)])))
         # writes
         values = [True, False, 0, 1, 55, -3, 100, "s p", "", "on"]
         wsets = [[(1, 9, True)], [(1, 10, 55)], [(1, 9, False), (1, 10, 100)], [(2, 9, True), (1, 9, True)],
